@@ -194,12 +194,29 @@ func intrStretch(in *interp, fr *frame, fn *ssa.Function, args []value) value {
 				p.assume(tAnd(tCmp(">=", gi.delta, mkInt(0)), tCmp("<=", gi.delta, mkInt(int64(D)))))
 				gi.extra = p.newVar(fmt.Sprintf("%sgapx%d", tag, idx), sStr)
 				p.assume(tEq(tLen(gi.extra), gi.delta))
-				p.assume(tInRe(gi.extra, "(re.* "+reClass(" \\t")+")"))
+				p.assume(tInRe(gi.extra, `(re.* (str.to_re " "))`))
+				in.uniformVars()[gi.extra.s] = ' ' 
 				st.gaps = append(st.gaps, gi)
 			}
 			st.bounds[prevEnd] = true
 		}
 		prevEnd = t.Range.End.Byte
+	}
+	// total extra blanks bound (stated bound: at most T extra blanks over all gaps)
+	if len(st.gaps) > 1 {
+		T := 2
+		if currentTier == "thorough" {
+			T = 4
+		}
+		if v, ok := in.opaque["stretch-total"].(int); ok {
+			T = v
+		}
+		sum := mkInt(0)
+		for _, g := range st.gaps {
+			sum = tAdd(sum, g.delta)
+		}
+		p.assume(tCmp("<=", sum, mkInt(int64(T))))
+		p.note(fmt.Sprintf("bound:total-extra-blanks<=%d", T))
 	}
 	// line slots: before each top-level item and at end of file
 	if nslots > 0 {
